@@ -181,6 +181,7 @@ class Ctx:
         self.n = 0
         self.hooks = {}
         self.keep = []         # keep z3 refs alive (ids are reused otherwise)
+        self.side = []         # undecided definedness side conditions of every executed operation (witness-search heuristic)
 
     def fresh(self, name, sort=None):
         self.n += 1
@@ -527,6 +528,8 @@ def div(ctx, a, b):
     ok = band(_fin_ok(oa, ia), _fin_ok(ob, ib))
     if is_z(tb):
         nz = DEC.decide(toz(tb) != 0)
+        if is_z(nz):
+            ctx.side.append(nz)
         ok = band(ok, nz)
     if ok is False:
         return float("nan")
@@ -812,6 +815,8 @@ def _slog_plain(ctx, u):
     if znum(u) is not None:
         return _slog_plain(ctx, znum(u))
     pos = DEC.decide(u > 0)
+    if is_z(pos):
+        ctx.side.append(pos)
     l = ctx.LOG(u)
     if l.get_id() not in ctx.log_arg:
         ctx.log_arg[l.get_id()] = u
@@ -852,7 +857,10 @@ def _ssqrt_plain(ctx, u):
         ctx.facts += [s >= 0, z3.Implies(u >= 0, s * s == u)]
         ctx.sqrt_memo[i] = (s, u)
     s = ctx.sqrt_memo[i][0]
-    return s, DEC.decide(u >= 0)
+    nn = DEC.decide(u >= 0)
+    if is_z(nn):
+        ctx.side.append(nn)
+    return s, nn
 
 
 def ssqrt(ctx, v):
@@ -1869,14 +1877,17 @@ def prove_eq(ctx, assumptions, lhs, rhs, name="", **kw):
     uselog = has_log(ctx, d) if is_z(d) else False
     if not uselog:
         return check(ctx, assumptions, zl == zr, name=name, **kw)
-    r, m = check(ctx, assumptions, zl == zr, name=name + "[direct]", rlimit=kw.get("rlimit", 20_000_000) // 4, timeout=kw.get("timeout", 120_000))
-    if r == "unsat":
-        return r, m
+    # logarithms present: exponentiate the goal first (A = B  <=>  exp(m(A-B)) = 1), then the direct form
     mlt = max(1, log_lcm_deep(ctx, d))
     e = _sexp_plain(ctx, _mul(Fraction(mlt), d))
     r2, m2 = check(ctx, assumptions, toreal(e) == 1, name=name + f"[exp-goal x{mlt}]", **kw)
     if r2 == "unsat":
         return r2, m2
+    kw2 = dict(kw)
+    kw2["timeout"] = min(kw.get("timeout", 60_000), 15_000)
+    r, m = check(ctx, assumptions, zl == zr, name=name + "[direct]", **kw2)
+    if r == "unsat":
+        return r, m
     return (r2, m2) if r2 == "sat" else (r, m)
 
 
